@@ -105,6 +105,17 @@ def compare_with_reference(spec: dict, ref, run, prop: str = "C02", data: bool =
     if a["wf"] != b["wf"] or a["stages"] != b["stages"]:
         out.append(viol(f"{prop}/outcome-differs", f"reference {a['wf']} {a['stages']} vs {b['wf']} {b['stages']}"))
     rc, tc = oracles.exec_counts(ref.ledger), oracles.exec_counts(run.ledger)
+    if spec.get("loose_iter_labels"):
+        # iteration labels are per-stage re-arm counts; where a schedule legitimately changes whether a stage is
+        # re-armed (see the spec), executions are compared per (stage, task) over all iterations, data not at all
+        def fold(c):
+            out_: Counter = Counter()
+            for (r_, t_, _i), n_ in c.items():
+                out_[(r_, t_, "*")] += n_
+            return out_
+
+        rc, tc = fold(rc), fold(tc)
+        data = False
     if rc != tc:
         diff = {str(k): (rc.get(k, 0), tc.get(k, 0)) for k in set(rc) | set(tc) if rc.get(k, 0) != tc.get(k, 0)}
         more = any(v[1] > v[0] for v in diff.values())
